@@ -113,6 +113,22 @@ Theorem C03_water_names_refuted :
              names s' = ["O"; "H2"]%string.
 Proof. eexists. split; vm_compute; reflexivity. Qed.
 
+(* ---- the residue constructors (Amino / Nucleic / WAT __init__) -----------------------
+   For ALL record-name lists and ALL alias tables: the constructed atom list has no
+   duplicate, it is exactly the first occurrences of the CANONICAL names in file order
+   (so alt-loc copies, repeated records and alias + canonical spellings of one atom give
+   one atom), and the object-list + dict residue built the same way is consistent and has
+   those names. *)
+Theorem C03_residue_init_nodup : forall alt recs,
+  NoDup (residue_init alt recs) /\
+  residue_init alt recs = first_occ [] (map (canon alt) recs) /\
+  (forall x, In x (residue_init alt recs) <-> In x (map (canon alt) recs)).
+Proof. exact residue_init_nodup. Qed.
+
+Theorem C03_residue_init_layers : forall alt recs,
+  WFres (res_init alt recs) /\ res_names (res_init alt recs) = residue_init alt recs.
+Proof. exact res_init_agrees. Qed.
+
 (* ---- why a name list may stand for a Residue -------------------------------------
    For every operation sequence whose guards hold in the name-list layer (create: name
    absent; remove: present; rename: old present, new absent), the object-list + dict layer
@@ -377,6 +393,8 @@ Print Assumptions C03_good_names_meaning.
 Print Assumptions C03_flip_names.
 Print Assumptions C03_alcoholic_names.
 Print Assumptions C03_water_names.
+Print Assumptions C03_residue_init_nodup.
+Print Assumptions C03_residue_init_layers.
 Print Assumptions C03_layers_agree.
 Print Assumptions C03_layer_keyerror.
 Print Assumptions C03_flip_names_table.
